@@ -157,6 +157,9 @@ def run_case(case, tier="quick"):
         if ref is not None and solver_artifact(case, tier, r):
             return inconclusive("solver artefact: solved only with HiGHS presolve off", labels)
         if ref is not None:
+            if cyc:
+                ceg = inst.cap_explains_gap(r.model, ref_desc, best_of, float("inf"), 0.0)
+                facts["cap_explains_gap"] = "undecided" if ceg is None else ceg
             return violation("unsolved", f"{cls}(k={k}) not solved (status {r.status}) although a solution with objective {ref} exists: {ref_desc}", labels, facts=facts)
         labels.add("unsolved")
         return ok(labels, False, facts)
